@@ -157,6 +157,8 @@ PROPS["C01"] = {
     "runs": [
         R("write-paths", ".", "root", ["ZzC18ClientWriteRTP", "ZzC18StreamWriteRTP", "ZzC18SessionWriteRTP"], params={"GOSTUB": 1}, extras=_EXTRAS,
           quick_params={"P": 12, "MAXPS": 36}, thorough_params={"P": 40, "MAXPS": 80, "NR": 3}),
+        R("fast-unmarshal", ".", "root", ["ZzC01FastUnmarshal"], params={"GOSTUB": 1}, extras=_EXTRAS, flags={"concoff": True},
+          quick_params={"P": 20}, thorough_params={"P": 40}),
     ],
 }
 PROPS["C19"] = {
